@@ -847,7 +847,7 @@ func genGraph(rt *rapid.T, opts ggOpts) *ggraph {
 		}
 		switch rapid.SampledFrom(kinds).Draw(rt, "inputKind") {
 		case "NF":
-			shape = []int{gg.batchN, rapid.IntRange(1, 5).Draw(rt, "F")}
+			shape = []int{gg.batchN, min(genExtent(5).Draw(rt, "F"), 70)}
 		case "NCHW":
 			shape = []int{gg.batchN, rapid.IntRange(1, 2).Draw(rt, "C"), rapid.IntRange(2, 5).Draw(rt, "H"), rapid.IntRange(2, 5).Draw(rt, "W")}
 		case "NCL":
